@@ -48,7 +48,7 @@ def run(ctx):
     return core.finish(ctx, "model_checking", RULE, confirm=boolfam.confirm("C01"))
 
 def vatti(ctx):
-    """Layer 2 binding: AEL snapshots of hook H1 validated against VattiTrace.tla (V1-V5).  A failure is an engine-level
+    """Layer 2 binding: AEL snapshots of hook H1 and the intersections of hook H2 validated against VattiTrace.tla (V1-V7).  A failure is an engine-level
     divergence: it is recorded and ESCALATED to a targeted observable search on that input (DESIGN.md 3.6), never a verdict."""
     import json, os
     exe = core.build("plain", ("vatti",))
@@ -63,10 +63,11 @@ def vatti(ctx):
             raise core.ModelFailure("harness vatti failed: " + p.stderr.decode(errors="replace")[-1000:])
     core.run_parallel(one, vj)
     res = core.validate_traces("VattiTrace", "VattiTrace.cfg", [j["out"] for j in vj])
-    snaps = 0; div = []; cases = []
+    snaps = 0; div = []; cases = []; nis = 0
     for f, r in res:
         ctx.add_tlc(r); lines = None
         snaps += sum(1 for ln in open(f) if ln.startswith('{"e":"Ael"'))
+        nis += sum(len(json.loads(ln)["x"]) for ln in open(f) if ln.startswith('{"e":"Isects"'))
         for fl in r.fails:
             lines = lines or core.read_lines(f)
             if fl["prop"] == "ANY":
@@ -78,6 +79,7 @@ def vatti(ctx):
             c = json.loads(lines[i]); div.append({"clause": fl["clause"], "detail": fl["detail"], "subj": c["subj"], "clip": c["clip"]})
             cases.append(json.dumps({"subj": c["subj"], "clip": c["clip"]}))
     ctx.extra["ael_snapshots_validated"] = snaps
+    ctx.extra["sweep_intersections_validated"] = nis
     ctx.extra["engine_divergences"] = {"count": len(div), "clauses": sorted({d["clause"] for d in div}), "sample": div[:2]}
     if cases:
         core.log("[C01] %d engine-level divergence(s) (%s): escalating to the observable checks on those inputs" % (len(div), ", ".join(sorted({d["clause"] for d in div}))))
